@@ -457,6 +457,13 @@ impl C18 {
         }
         for k in 0..3 {
             let out = dir.join(format!("p{idx}.run{k}.tii"));
+            if k == 1 && !files.is_empty() && rng.bool() {
+                // an incremental build directory: the output path already holds an older, longer artifact
+                let mut stale = files[0].clone();
+                stale.extend_from_slice(b"\n{\"stale\": \"tail of a previous, longer artifact\"}\n");
+                let _ = std::fs::write(&out, stale);
+                ctx.count("tii/histories-over-a-stale-longer-file");
+            }
             let mut cmd = std::process::Command::new(&env.tx3c);
             cmd.arg("build").arg(if k == 2 { &src_copy } else { &src_path }).arg("--emit").arg("tii").arg("-o").arg(&out);
             for f in &flags {
@@ -516,7 +523,7 @@ impl Property for C18 {
         "C18"
     }
     fn rule(&self) -> String {
-        format!("for every example program of the repository and for generated programs weighted towards chain-specific directives with several fields (withdrawal, plutus_witness, publish, vote delegation, ...), 1-3 txs: the set of distinct byte strings of to_bytes(lower(analyze(parse(s)))) over {REPS} in-process repetitions and over 3 fresh processes (new hash seeds each) has one member per tx, and the .tii file written by 3 runs of the real tx3c binary (distinct output paths, one run from a copy of the source in another directory, 0-3 --profile flags and 0-2 --profile-env-file arguments whose profile names come in several spellings of one name and whose files give values to the program's real env vars and parties, some histories spanning more than a second) is one byte string. A difference is located by walking the two CBOR / JSON documents in parallel. Non-trivial: the program has an ad-hoc directive with >= 2 fields or >= 2 txs; distinct = distinct sources.")
+        format!("for every example program of the repository and for generated programs weighted towards chain-specific directives with several fields (withdrawal, plutus_witness, publish, vote delegation, ...), 1-3 txs: the set of distinct byte strings of to_bytes(lower(analyze(parse(s)))) over {REPS} in-process repetitions and over 3 fresh processes (new hash seeds each) has one member per tx, and the .tii file written by 3 runs of the real tx3c binary (distinct output paths - one of them already holding an older, longer artifact in half of the histories -, one run from a copy of the source in another directory, 0-3 --profile flags and 0-2 --profile-env-file arguments whose profile names come in several spellings of one name and whose files give values to the program's real env vars and parties, some histories spanning more than a second) is one byte string. A difference is located by walking the two CBOR / JSON documents in parallel. Non-trivial: the program has an ad-hoc directive with >= 2 fields or >= 2 txs; distinct = distinct sources.")
     }
     fn assumptions(&self) -> Vec<String> {
         vec!["every process start draws fresh hash seeds (std RandomState), so three processes sample three seeds; in one process every new HashMap gets a new seed as well".into()]
@@ -536,7 +543,7 @@ impl Property for C18 {
         }
     }
     fn required_features(&self, _tier: Tier) -> Vec<String> {
-        ["programs/example", "programs/generated", "ir/in-process-histories", "ir/facade-histories-with-applied-args", "ir/process-histories", "tii/histories", "tii/histories-with>=2-profiles", "tii/histories-with-env-file", "tii/histories-with-one-profile-in-two-spellings", "feature/adhoc-directive-with>=2-fields", "feature/adhoc-directive-with>=4-fields", "feature/>=2-adhoc-directives"]
+        ["programs/example", "programs/generated", "ir/in-process-histories", "ir/facade-histories-with-applied-args", "ir/process-histories", "tii/histories", "tii/histories-with>=2-profiles", "tii/histories-with-env-file", "tii/histories-with-one-profile-in-two-spellings", "tii/histories-over-a-stale-longer-file", "feature/adhoc-directive-with>=2-fields", "feature/adhoc-directive-with>=4-fields", "feature/>=2-adhoc-directives"]
             .iter()
             .map(|s| s.to_string())
             .collect()
